@@ -124,6 +124,8 @@ pub fn run_case(line: &str) {
                 match out {
                     Ok(Ok(())) => "ok".to_string(),
                     Ok(Err(e)) => err_str(&e).to_string(),
+                    // (a panic on a call made after an earlier call failed is the documented refusal of a poisoned rewriter)
+                    Err(_) if !all_ok => "panic:poisoned".to_string(),
                     Err(p) => format!("panic:impl {}", p.downcast_ref::<String>().cloned().or_else(|| p.downcast_ref::<&str>().map(|s| s.to_string())).unwrap_or_default().replace('\n', " ")),
                 }
             }
